@@ -203,10 +203,15 @@ def hostile_rng(rng, k):
     return "after_1e5_draws"
 
 
-def check_gctm(ctx, pc, rng, record):
+# profiles (regular 20 km grid, strengths over six decades) for which the optimiser's solution comes back with two layers out of
+# height order (found by search, ~1 % of such profiles): heights and strengths must still belong together
+CROSSING_PROFILE_SEEDS = [135, 294, 391, 516, 621, 673, 816, 848]
+
+
+def check_gctm(ctx, pc, rng, record, crossing_seed=None):
     N = int(rng.integers(8, 60))
     L = int(rng.integers(1, 5))
-    for _ in range(50):
+    for _ in range(50 if crossing_seed is None else 0):
         h, p, w, kinds = gen_profile(rng, N, kind=int(rng.choice([0, 1, 5])))
         hf = h.astype(float)
         step = (hf.max() - hf.min()) / L
@@ -214,14 +219,20 @@ def check_gctm(ctx, pc, rng, record):
         if all(np.any((ix == i + 1) & (p > 0)) for i in range(L)):
             break
     else:
-        return
-    p = 10 ** rng.uniform(-15, -13, N) if kinds[1] == 3 else p
+        if crossing_seed is None:
+            return
+        g_ = np.random.default_rng([crossing_seed, 1807])
+        N, L = int(g_.integers(20, 60)), int(g_.integers(3, 6))
+        h = np.linspace(0, 20000., N)
+        p = 10.0 ** g_.uniform(-19, -13, N)
+        hf, kinds = h, ("regular_grid", "six_decades")
+    p = 10 ** rng.uniform(-15, -13, N) if (crossing_seed is None and kinds[1] == 3) else p
     wit = {"N": N, "L": L, "kinds": kinds}
     ctx.case("GCTM", key=(N, L, float(hf.sum()), float(p.sum())), nontrivial=True, sample=wit)
     record.clear()
     hs_, cs_ = 10000.0, 100e-15
     unit = 1.0
-    u_ = rng.random()
+    u_ = rng.random() if crossing_seed is None else 1.0
     if u_ < 0.3:                              # non-default scalings must only change the conditioning, not the result
         hs_, cs_ = float(rng.choice([5000.0, 20000.0])), float(rng.choice([50e-15, 200e-15]))
         h_L, c_L = pure_call(ctx, "GCTM", pc.GCTM, h, p, L, hs_, cs_)
@@ -258,6 +269,12 @@ def check_gctm(ctx, pc, rng, record):
         rec = record[0]
         f0, f1 = rec["f_x0"], rec["f_res"]
         ctx.check(f1 <= f0 * (1 + 1e-12), "GCTM:objective_increased", "objective went from %.3g to %.3g" % (f0, f1), wit)
+        # what is returned is what the optimiser found: same objective value (heights and strengths still paired)
+        if len(h_L) == L and len(c_L) == L:
+            ctx.check(fobj(h_L, c_L) <= f1 * (1 + 1e-6) + 1e-24 * float((m0_ ** 2).sum()), "GCTM:returned_layers_are_not_the_optimisers",
+                      "the returned layers miss the moments by %.3g, the optimiser's solution by %.3g" % (fobj(h_L, c_L), f1), wit)
+    if len(h_L) == L and np.any(np.diff(np.asarray(h_L)) < 0):
+        ctx.count("gctm_results_with_layers_out_of_height_order")
     success = bool(record[0]["success"]) if len(record) == 1 else True
     hs, cs = hf * unit / 10000.0, np.asarray(p, float) / 100e-15
     mom_in = np.array([(cs * hs ** i).sum() for i in range(2 * L - 1)])
@@ -376,6 +393,7 @@ def run(ctx, spec):
     # ---- GCTM ----
     for i in range(spec["n_gctm"]):
         check_gctm(ctx, pc, rng, record)
+    check_gctm(ctx, pc, rng, record, crossing_seed=CROSSING_PROFILE_SEEDS[spec["shard"] % len(CROSSING_PROFILE_SEEDS)])
 
 # GCTM accuracy: "to optimiser accuracy" has no sharp value. Measured on 800 random profiles: max relative
 # moment error 6.6e-3 (L <= 4), one thorough run saw 1.9e-2; the bound asserted is 0.1, which still
